@@ -10,7 +10,7 @@ import os
 import shutil
 import tempfile
 
-from sim.digest import digest, canon
+from sim.digest import digest, canon, excname
 from sim.rng import Rng
 from sim.simfs import SimFS, SimCrash
 from sim.simrandom import SimRandom
@@ -146,6 +146,15 @@ def gen_case(r, index, tier):
         ops.append({"op": "rect_alloc"})
         ops.append({"op": "rect_solution", "seed": r.below(1 << 30), "extra": r.randint(0, 3), "nnets": r.randint(0, 4),
                     "times": r.randint(1, 2)})
+        # an iterative flow: the allocation is refined (or replaced) and handed to the stage again under the same file name
+        for _ in range(r.weighted([(0, 5), (1, 4), (2, 1)])):
+            if r.chance(0.6):
+                ops.append({"op": "refine", "t": r.choice([0.7, 0.9, 0.95, 1.0]), "levels": 1})
+            else:
+                ops.append({"op": "load_alloc", "alloc": designs.gen_allocation(r, allow_fixed=False, allow_empty=True, drop_cells=False,
+                                                                                 slivers=False, nmods=r.randint(1, 4)), "via": "tree"})
+            ops.append({"op": "write", "obj": "alloc", "to": "file", "times": 1})
+            ops.append({"op": "rect_alloc"})
     elif scen == "legal":
         die = designs.gen_die(r, max_regions=0, scale_exp=r.weighted([(0, 4), (-1, 2), (1, 2), (2, 1), (-3, 1), (-4, 1)]))
         nl = designs.gen_netlist(r, die, nmods=r.randint(1, 4), kinds=["soft", "soft", "hard", "fixed"], allow_terminals=False,
@@ -180,7 +189,7 @@ def gen_case(r, index, tier):
             ops.append({"op": "rect_alloc"})
     if r.chance(0.1):
         ops.append({"op": "read_fault", "kind": r.choice(["enoent", "eio_read"])})
-    return {"engine": "c19", "scenario": scen, "ops": ops}
+    return {"engine": "c19", "scenario": scen, "ops": ops, "fixed_names": r.chance(0.5)}
 
 
 def _gen_floorset(r):
@@ -368,6 +377,7 @@ class Ctx:
         self.files_raw = {}   # slot -> un-canonicalised sem at write time
         self.trees = {}       # slot -> tree it was loaded from (for fresh reloads)
         self.nfile = 0
+        self.fixed_names = bool(case.get("fixed_names"))
         self.docs = 0
         self.rnd = SimRandom(1234)
 
@@ -381,6 +391,8 @@ class Ctx:
         # stages of the real flow use fixed file names, so a later run of a stage overwrites the earlier document:
         # every third request gets a fresh name, the others reuse one of two names per stem
         self.nfile += 1
+        if self.fixed_names:
+            return "%s.yaml" % stem      # one name per kind of document, overwritten by every later run of the stage
         if self.nfile % 3 == 0:
             return "%s_%d.yaml" % (stem, self.nfile)
         return "%s_slot%d.yaml" % (stem, self.nfile % 2)
@@ -477,7 +489,7 @@ def _op_write(ctx, o):
             try:
                 docs.append(obj.write_yaml())
             except Exception as e:
-                ctx.v("producer raised", dict(key, exc=type(e).__name__), {"exc": repr(e)[:300]})
+                ctx.v("producer raised", dict(key, exc=excname(e)), {"exc": repr(e)[:300]})
                 return "producer raised"
         else:
             path = ctx.path("out_" + kind)
@@ -508,7 +520,7 @@ def _op_write(ctx, o):
                 _do_restart(ctx)
                 return "crashed(len=%d)" % len(torn or "")
             except Exception as e:
-                ctx.v("producer raised", dict(key, exc=type(e).__name__), {"exc": repr(e)[:300]})
+                ctx.v("producer raised", dict(key, exc=excname(e)), {"exc": repr(e)[:300]})
                 return "producer raised"
             fired_now = len(ctx.fs.fired) > nfired
             ctx.fs.plan = []
@@ -553,7 +565,7 @@ def _op_write(ctx, o):
     try:
         back = _reread(ctx, kind, src)
     except BaseException as e:  # noqa
-        ctx.v("document rejected by its reader", dict(key, exc=type(e).__name__),
+        ctx.v("document rejected by its reader", dict(key, exc=excname(e)),
               {"exc": repr(e)[:300], "document": docs[0][:600]})
         return "rejected"
     want = canon(_doc_sem(kind, obj))
@@ -584,7 +596,7 @@ def _do_restart(ctx):
             else:
                 obj = _m["A"].Allocation(path)
         except BaseException as e:  # noqa
-            ctx.v("document rejected by its reader", {"producer": kind + ".write_yaml", "to": "file", "exc": type(e).__name__,
+            ctx.v("document rejected by its reader", {"producer": kind + ".write_yaml", "to": "file", "exc": excname(e),
                                                       "after": "restart"}, {"exc": repr(e)[:300]})
             continue
         got = canon(_doc_sem(kind, obj))
@@ -683,7 +695,7 @@ def _op_netgen(ctx, o):
         ctx.v("producer raised", dict(key, exc="SystemExit"), {"args": args, "exc": repr(e)})
         return "argparse exit"
     except Exception as e:
-        ctx.v("producer raised", dict(key, exc=type(e).__name__), {"args": args, "exc": repr(e)[:300]})
+        ctx.v("producer raised", dict(key, exc=excname(e)), {"args": args, "exc": repr(e)[:300]})
         return "producer raised"
     fired_now = len(ctx.fs.fired) > nfired
     ctx.fs.plan = []
@@ -700,7 +712,7 @@ def _op_netgen(ctx, o):
     try:
         net = _m["N"].Netlist(path)
     except BaseException as e:  # noqa
-        ctx.v("document rejected by its reader", dict(key, exc=type(e).__name__),
+        ctx.v("document rejected by its reader", dict(key, exc=excname(e)),
               {"args": args, "exc": repr(e)[:300], "document": (ctx.fs.text(path) or "")[:500]})
         return "rejected"
     names, nets = _expected_netgen(t, size)
@@ -837,7 +849,7 @@ def _op_floorset(ctx, o):
     try:
         fp = FM.FloorSetInstance(data, dens, o.get("tam", False))
     except Exception as e:
-        ctx.v("producer raised", dict(key, exc=type(e).__name__), {"exc": repr(e)[:300], "inst": inst})
+        ctx.v("producer raised", dict(key, exc=excname(e)), {"exc": repr(e)[:300], "inst": inst})
         return "producer raised"
 
     def obj_sem():
@@ -850,7 +862,7 @@ def _op_floorset(ctx, o):
         try:
             pre_die = fp.write_yaml_DIEF()
         except Exception as e:
-            ctx.v("producer raised", dict(key, exc=type(e).__name__, write="die first"), {"exc": repr(e)[:300]})
+            ctx.v("producer raised", dict(key, exc=excname(e), write="die first"), {"exc": repr(e)[:300]})
             return "producer raised"
     before = obj_sem()
     for i in range(o.get("times", 1)):
@@ -872,7 +884,7 @@ def _op_floorset(ctx, o):
                 docs.append(ctx.fs.text(p1))
                 ddocs.append(ctx.fs.text(p2))
         except Exception as e:
-            ctx.v("producer raised", dict(key, exc=type(e).__name__, write=i), {"exc": repr(e)[:300]})
+            ctx.v("producer raised", dict(key, exc=excname(e), write=i), {"exc": repr(e)[:300]})
             return "producer raised"
     if obj_sem() != before:
         ctx.v("producing a document altered the object", key, {"before": before, "after": obj_sem()})
@@ -887,7 +899,7 @@ def _op_floorset(ctx, o):
         net = _m["N"].Netlist(docs[0])
         die = _m["D"].Die(ddocs[0])
     except BaseException as e:  # noqa
-        ctx.v("document rejected by its reader", dict(key, exc=type(e).__name__), {"exc": repr(e)[:300], "document": docs[0][:800]})
+        ctx.v("document rejected by its reader", dict(key, exc=excname(e)), {"exc": repr(e)[:300], "document": docs[0][:800]})
         return "rejected"
     # the document against the synthetic instance
     if (die.width, die.height) != (inst["W"] * u, inst["H"] * u):
@@ -958,7 +970,7 @@ def _op_rect_alloc(ctx, o):
         ifile = RIO.get_alloc(path)
     except BaseException as e:  # noqa
         ctx.v("document rejected by its reader", {"producer": "alloc.write_yaml", "consumer": "rect_io.get_alloc",
-                                                  "exc": type(e).__name__}, {"exc": repr(e)[:300]})
+                                                  "exc": excname(e)}, {"exc": repr(e)[:300]})
         return "rejected"
     cells = [[c[0], c[1], c[2]] for c in ctx.files_raw["alloc"]]
     exp_rects = [{"b%d" % i: [{"dim": c[0][:4]}, {"mod": [{m: v} for m, v in c[1].items()]}]} for i, c in enumerate(cells)]
@@ -986,7 +998,7 @@ def _op_rect_alloc(ctx, o):
     try:
         net = RIO.get_netlist(None, path)
     except BaseException as e:  # noqa
-        ctx.v("document rejected by its reader", dict(key, exc=type(e).__name__), {"exc": repr(e)[:300], "modules": canon(mods)})
+        ctx.v("document rejected by its reader", dict(key, exc=excname(e)), {"exc": repr(e)[:300], "modules": canon(mods)})
         return "rejected"
     got = sem.netlist_sem(net)
     bad = None
@@ -1073,7 +1085,7 @@ def _op_rect_solution(ctx, o):
     try:
         netlist = _m["N"].Netlist(tree)
     except BaseException as e:  # noqa
-        return "skipped(generated netlist rejected: %s)" % type(e).__name__
+        return "skipped(generated netlist rejected: %s)" % excname(e)
     # synthesised k-box solutions for some soft modules of the allocation
     result = {}
     for m in mods_in_alloc:
@@ -1094,7 +1106,7 @@ def _op_rect_solution(ctx, o):
         try:
             docs.append(RIO.solution_to_netlist(netlist, result))
         except Exception as e:
-            ctx.v("producer raised", dict(key, exc=type(e).__name__), {"exc": repr(e)[:300]})
+            ctx.v("producer raised", dict(key, exc=excname(e)), {"exc": repr(e)[:300]})
             return "producer raised"
     if canon(sem.netlist_sem(netlist, roles=True, order_rects=True)) != before:
         ctx.v("producing a document altered the object", key, {})
@@ -1107,7 +1119,7 @@ def _op_rect_solution(ctx, o):
     try:
         back = _m["N"].Netlist(docs[0])
     except BaseException as e:  # noqa
-        ctx.v("document rejected by its reader", dict(key, exc=type(e).__name__, terminal=has["terminal"]),
+        ctx.v("document rejected by its reader", dict(key, exc=excname(e), terminal=has["terminal"]),
               {"exc": repr(e)[:300], "document": docs[0][:900]})
         return "rejected"
     src = _unordered_net(sem.netlist_sem(netlist, per_region=False, flip=False, aspect=False))
@@ -1161,7 +1173,7 @@ def _op_legal(ctx, o):
         ml, al, xl, yl, wl, hl, hyper, og = LF.netlist_to_utils(net)
         model = LF.Model(ml, al, xl, yl, wl, hl, die.width, die.height, hyper, o.get("ratio", 2.0), og, 0.9, 0.3, 1)
     except Exception as e:
-        ctx.v("producer raised", dict(key, exc=type(e).__name__, stage="model"), {"exc": repr(e)[:300]})
+        ctx.v("producer raised", dict(key, exc=excname(e), stage="model"), {"exc": repr(e)[:300]})
         return "producer raised"
     solved = 0
     if o.get("solve"):
@@ -1176,10 +1188,10 @@ def _op_legal(ctx, o):
                 model.time_advance(1)
         except Exception as e:
             if solved == 0 and "get_netlist" not in repr(e):
-                ctx.probe("legal_solve_failed_" + type(e).__name__)
-                return "skipped(solver failed: %s)" % type(e).__name__
+                ctx.probe("legal_solve_failed_" + excname(e))
+                return "skipped(solver failed: %s)" % excname(e)
             multi = any(m.is_hard and m.num_rectangles >= 2 for m in net.modules)
-            ctx.v("document rejected by its reader", dict(key, exc=type(e).__name__, after="solve", hard_multi_rect=multi),
+            ctx.v("document rejected by its reader", dict(key, exc=excname(e), after="solve", hard_multi_rect=multi),
                   {"exc": repr(e)[:300]})
             return "rejected"
         ctx.probe("legal_model_solved")
@@ -1188,7 +1200,7 @@ def _op_legal(ctx, o):
         out = model.get_netlist()
         out2 = model.get_netlist()
     except BaseException as e:  # noqa
-        ctx.v("document rejected by its reader", dict(key, exc=type(e).__name__), {"exc": repr(e)[:300]})
+        ctx.v("document rejected by its reader", dict(key, exc=excname(e)), {"exc": repr(e)[:300]})
         return "rejected"
     if canon(sem.netlist_sem(net, roles=True, order_rects=True)) != before:
         ctx.v("producing a document altered the object", key, {})
@@ -1257,13 +1269,13 @@ def run_case(case):
                 out = "crashed"
                 _do_restart(ctx)
             except Exception as e:
-                out = "raised " + type(e).__name__
+                out = "raised " + excname(e)
                 if kind in ("split", "grid", "init_alloc", "refine", "uniform", "griddify", "load_net", "load_die", "load_alloc"):
                     # a library stage that refuses its input is the subject of other properties (C01, C03, C11, C02/C12);
                     # C19 judges producers and readers only
                     ctx.probe("stage_refused_input_" + kind)
                 else:
-                    ctx.v("stage raised", {"op": kind, "exc": type(e).__name__}, {"seq": seq, "exc": repr(e)[:400]})
+                    ctx.v("stage raised", {"op": kind, "exc": excname(e)}, {"seq": seq, "exc": repr(e)[:400]})
             ctx.hist.append({"seq": seq, "op": kind, "obj": o.get("obj"), "to": o.get("to") or o.get("via"), "out": out})
             ctx.sig.append((kind, o.get("obj") or o.get("type") or "", o.get("to") or o.get("via") or "", out.split("(")[0],
                             (o.get("fault") or {}).get("kind", "")))
@@ -1330,7 +1342,7 @@ def _step(ctx, o):
         try:
             ctx.objs["alloc"] = _m["A"].create_initial_allocation(d, o.get("zero", False))
         except (AssertionError, ZeroDivisionError) as e:
-            return "skipped(initial allocation refused: %s)" % type(e).__name__
+            return "skipped(initial allocation refused: %s)" % excname(e)
         return "ok"
     if kind in ("refine", "uniform", "griddify"):
         a = ctx.objs.get("alloc")
@@ -1391,7 +1403,7 @@ def _step(ctx, o):
             return "read raised"
         except BaseException as e:  # noqa
             ctx.fs.plan = []
-            return "read raised other: " + type(e).__name__
+            return "read raised other: " + excname(e)
         ctx.fs.plan = []
         ctx.v("read fault swallowed by the reader", {"consumer": reader.__name__, "fault": k}, {"path": path, "obj": repr(obj)[:100]})
         return "fault swallowed"
